@@ -785,6 +785,9 @@ package kcp
 //@   modifies all(DefaultSnmp)
 //@   ensures result != nil && fresh(result) && result.imm() && result.kcp.conv == conv && result.remote == remote
 //@   ensures @C06 @C09 [the-configured-cipher-is-the-one-installed] result.block == block
+//@   ensures @C07 @C16 [the-configured-fec-ratio-is-the-one-the-encoder-uses] result.fecEncoder != nil ==> result.fecEncoder.dataShards == dataShards && result.fecEncoder.parityShards == parityShards
+//@   callsite newFECDecoder requires @C07 @C16 [the-decoder-is-built-with-the-configured-ratio] arg_dataShards == dataShards && arg_parityShards == parityShards
+//@   ensures @C11 @C06 [the-session-belongs-to-the-listener-and-peer-it-was-created-for] result.l == l && result.remote == remote && result.kcp.conv == conv && result.ownConn == ownConn && result.conn == conn
 //@   ensures result.l == l
 //
 //@ func serveConn
@@ -818,6 +821,8 @@ package kcp
 // upper bound until its own next send, and the send happens only with room known to be left.
 //@ soleproducer Listener.packetInput: Listener.chAccepts
 //@ func Listener.packetInput
+//@   callsite newUDPSession requires @C11 @C06 @C07 [a-new-session-gets-the-listeners-cipher-ratio-socket-and-the-peers-address] block == l.block && dataShards == l.dataShards && parityShards == l.parityShards
+//@        && arg_l == l && conn == l.conn && !ownConn && remote == addr && conv == pktConv(data)
 //@   callsite chan:Listener.chAccepts requires @C11 [a-new-session-is-handed-to-accept-only-when-the-backlog-has-room] room(l.chAccepts)
 //@   requires l.imm() && len(data) <= 1500 && addr != nil
 //@   requires forall k string :: in(l.sessions, k) ==> ref(l.sessions[k].kcp.buffer) != ref(data)
